@@ -8,7 +8,9 @@ sys.path.insert(0, os.path.join(os.path.dirname(os.path.abspath(__file__)), ".."
 import yv
 
 INVALID_ARG, BAD_TYPE, DUP = 29, 48, 56
-VARS = {"i": ("i", [1, 2, 3]), "s": ("s", ["x", "yy-a-longer-value", "z"]), "f": ("f", [1.5, 2.5]), "b": ("b", [0, 1])}
+# declaration order matters for the table walks: a longer identifier is declared BEFORE the identifier that is its prefix (i_max before i, sx before s)
+VARS = {"i_max": ("i", [10, 11]), "i": ("i", [1, 2, 3]), "sx": ("s", ["p", "q"]), "s": ("s", ["x", "yy-a-longer-value", "z"]), "f": ("f", [1.5, 2.5]), "b": ("b", [0, 1])}
+UNKNOWN = [("nosuch", "i", 5), ("i_", "i", 5), ("i_maxx", "i", 5), ("", "i", 5)]      # unknown identifiers, also a proper prefix / an extension of a known one, and the empty name
 # wrongly typed definitions: (var, api type, value)
 WRONG = [("i", "s", "q"), ("s", "i", 7), ("f", "i", 7), ("b", "s", "q")]
 
@@ -17,8 +19,8 @@ def probes():
     out = []
     for v, (t, vals) in VARS.items():
         for k, val in enumerate(vals):
-            if t == "i": c = "i == %d" % val
-            elif t == "s": c = 's == "%s" and s contains "%s" and s endswith "%s"' % (val, val, val[-1])
+            if t == "i": c = "%s == %d" % (v, val)
+            elif t == "s": c = '%s == "%s" and %s contains "%s" and %s endswith "%s"' % (v, val, v, val, v, val[-1])
             elif t == "f": c = "f == %s" % val
             else: c = "b" if val else "not b"
             out.append(("%s_%d" % (v, k), v, val, c))
@@ -38,7 +40,8 @@ def ops_for(state):
     for v, (t, vals) in VARS.items():
         for val in vals[1:]:
             ops.append(("defr", v, t, val))
-    ops.append(("defr", "nosuch", "i", 5))
+    for u in UNKNOWN[:3]:
+        ops.append(("defr",) + u)
     for w in WRONG[:2]:
         ops.append(("defr",) + w)
     ops.append(("scanr",))
@@ -49,7 +52,7 @@ def ops_for(state):
             for v, (t, vals) in VARS.items():
                 for val in vals[1:]:
                     ops.append(("defs", j, v, t, val))
-            ops.append(("defs", j, "nosuch", "s", "q"))
+            ops.append(("defs", j, "nosuch", "s", "q")); ops.append(("defs", j, "i_", "i", 5))
             for w in WRONG:
                 ops.append(("defs", j) + w)
             ops.append(("scan", j))
